@@ -1,6 +1,16 @@
 #!/usr/bin/env python3
-"""tools/c19_switch.py snapshot|repaired [commit]
+"""tools/c19_switch.py slash snapshot|repaired [commit]      (current switch: fixes/C19-slash-in-key.diff)
+tools/c19_switch.py snapshot|repaired [commit]            (first switch, HISTORY: fixes/C19-name-fn.diff = /repo 212c2b0)
 
+`slash`: which default name function coq/cachefs/ExpectedFacts.v expects in /repo's parallel._pickle_name:
+  slash snapshot   f"{k!r}.p" (NameRepr): a key whose repr contains "/" cannot be cached -- recorded finding
+                   C19-slash-in-key (theorem C19_slash_names_refuted; KNOWN-FINDING line, exit 0);
+  slash repaired   the diff is applied (`fix:` commit <commit>): ExpectedFacts.v expects NameReprEsc, the finding moves
+                   to "fixed" (it suppresses nothing any more), the keys with "/" become an ordinary configuration of
+                   the fault-injection runs (P-slash-seq), C19_transparent / C19_escaped_names_* apply to the tree.
+Never flip a switch while a `./check C19` runs.
+
+First switch (do not use `snapshot` any more: the tree has carried repr-based names since 212c2b0).
 Keeps the two hand-maintained places of the C19 check consistent with the tree in /repo:
   snapshot   /repo's parallel._pickle_name returns f"{k}.p" (the state before fixes/C19-name-fn.diff):
              coq/cachefs/ExpectedFacts.v expects NameStr and the collision of keys with equal str() is the
@@ -15,9 +25,70 @@ import json, re, subprocess, sys
 from pathlib import Path
 
 V = Path(__file__).resolve().parent.parent
+
+
+def slash_switch(mode: str, commit: str) -> None:
+    fid = "C19-slash-in-key"
+    finding = {
+        "property": "C19",
+        "id": fid,
+        "call_site": "src/mxlpy/parallel.py:_pickle_name / _load_or_run (file = cache.tmp_dir / cache.name_fn(k); cache.save_fn(file, res))",
+        "guard": "the run contains a key whose repr() contains the path separator '/' under the default name_fn f'{k!r}.p' (str keys such as 'ATP/ADP', "
+                 "tuples with such a member, bytes keys): complement of `is_component (name)`; every other key -- '..', '.', '', NUL, '%', backslashes included -- is unaffected",
+        "witness": {"fn": "x*x", "inputs": [["ATP/ADP", 2], [["x/y", 1], 3], ["/abs", 4], ["../up", 5]], "cache": "fresh directory", "parallel": False},
+        "what_fails": "parallelise(sq, [('ATP/ADP', 2), ...], cache=Cache(d), parallel=False) raises FileNotFoundError (the file 'ATP/ADP'.p would lie in the sub-directory \"'ATP\" of the "
+                      "cache directory, which nobody creates); without cache it returns [('ATP/ADP', 4), ...]: 'returns the same results as running without one' fails for a legal key; "
+                      "scan.steady_state(..., cache=) with row labels containing '/' fails the same way (theorem C19_slash_names_refuted; demo findings/c19_slash_in_key.py). Proposed repair "
+                      "fixes/C19-slash-in-key.diff (repr(k) with '%' -> '%25', '/' -> '%2F': names of keys without '/' and '%' unchanged, still injective: C19_escaped_names_injective, every name a "
+                      "single path component: C19_escaped_names_are_components; suite-neutral): recorded until the lead applies it, then `tools/c19_switch.py slash repaired <commit>`.",
+    }
+    fixed = (f"fixed: property=C19 {commit} a key whose repr() contains '/' ('ATP/ADP', ('x/y', 1), b'a/b') could not be cached: the default name f'{{k!r}}.p' pointed into a "
+             "sub-directory of the cache directory that does not exist, so the cached run raised FileNotFoundError where the uncached run returns (demo: findings/c19_slash_in_key.py; "
+             "repair: fixes/C19-slash-in-key.diff -- '%' -> '%25', '/' -> '%2F' in the printed key; the old function is theorem C19_slash_names_refuted and reverting the repair breaks "
+             "C19_facts_pinned) (id " + fid + ")")
+    ef = V / "coq/cachefs/ExpectedFacts.v"
+    text = ef.read_text()
+    want = "NameRepr" if mode == "snapshot" else "NameReprEsc"
+    new = re.sub(r"(Definition C19_expected_name : name_kind := )\w+\.", rf"\g<1>{want}.", text)
+    if new != text:
+        ef.write_text(new)
+    kfp = V / "known_findings.d/C19.json"
+    kf = json.loads(kfp.read_text())
+    kf["findings"] = [f for f in kf.get("findings", []) if f.get("id") != fid]
+    kf["fixed"] = [x for x in kf.get("fixed", []) if fid not in x]
+    if mode == "snapshot":
+        kf["findings"].append(finding)
+    else:
+        kf["fixed"].append(fixed)
+    kfp.write_text(json.dumps(kf, indent=1) + "\n")
+    snap = ("Second switch: ExpectedFacts.v = NameRepr (the tree carries f'{k!r}.p'): a key whose repr contains '/' cannot be cached -- recorded finding C19-slash-in-key "
+            "(C19_slash_names_refuted), for which fixes/C19-slash-in-key.diff (percent-encoding of '%' and '/') is proposed; C19_transparent_escaped_names / C19_escaped_names_injective / "
+            "C19_escaped_names_are_components are proved for the repaired function and apply to the tree once the diff is applied and tools/c19_switch.py slash repaired <commit> was run.")
+    rep = ("Second switch: ExpectedFacts.v = NameReprEsc (the tree carries the percent-encoded names of fixes/C19-slash-in-key.diff): every default file name is a single path component "
+           "(C19_escaped_names_are_components, for every key) and different keys of the universe keep different names (C19_escaped_names_injective), so C19_transparent applies; the plain "
+           "f'{k!r}.p' is the regression theorem C19_slash_names_refuted and the keys 'ATP/ADP', ('x/y', 1), '/abs', '../up' are an ordinary configuration of the fault-injection runs.")
+    mp = V / "tools/manifest_src.d/C19.json"
+    m = json.loads(mp.read_text())
+    have, want_note = (rep, snap) if mode == "snapshot" else (snap, rep)
+    if have in m["note"]:
+        m["note"] = m["note"].replace(have, want_note)
+    elif want_note not in m["note"]:
+        print("WARNING: tools/manifest_src.d/C19.json: second-switch sentence not found in the note; edit it by hand")
+    mp.write_text(json.dumps(m, indent=1) + "\n")
+    subprocess.run([sys.executable, str(V / "tools/mkmanifest.py")], check=True)
+    print(f"C19 check now expects {want} ({mode})")
+
+
+if len(sys.argv) > 2 and sys.argv[1] == "slash":
+    if sys.argv[2] not in ("snapshot", "repaired"):
+        sys.exit(__doc__)
+    slash_switch(sys.argv[2], sys.argv[3] if len(sys.argv) > 3 else "<commit-to-be-filled>")
+    sys.exit(0)
 mode = sys.argv[1] if len(sys.argv) > 1 else ""
 if mode not in ("snapshot", "repaired"):
     sys.exit(__doc__)
+if re.search(r"Definition C19_expected_name : name_kind := NameReprEsc\.", (V / "coq/cachefs/ExpectedFacts.v").read_text()):
+    sys.exit("the second switch is in `repaired` (NameReprEsc); the first switch must not be moved any more")
 commit = sys.argv[2] if len(sys.argv) > 2 else "<commit-to-be-filled>"
 FID = "C19-name-collision"
 FINDING = {
